@@ -40,6 +40,7 @@ import XotModel.Lemmas.FspecFrameComposite
 import XotModel.Lemmas.FspecFrameReplace
 import XotModel.Lemmas.FparseHistStep
 import XotModel.Lemmas.ParseWitness
+import XotModel.Lemmas.FframeGeneralAll
 
 namespace XotModel.Props
 open XotModel XotModel.Spec
@@ -1558,6 +1559,93 @@ example : let s := (PStore.init Env.fresh).run c05FullCalls
     ((PCall.api (.call (.append 1 2))).run s).2 = .api .ok ∧
     (s.forest.ctx? 1).map HTree.Ctx.shape = some (0, [], .element 2, []) ∧
     ((s.step (.api (.call (.append 1 2)))).forest.ctx? 1).map HTree.Ctx.shape = some (0, [], .element 2, []) := by
+  decide +kernel
+
+end XotModel.Props
+
+
+/-! # ================================================================================================
+    # ONE GENERAL CHILD-LIST FRAME for the extended calls (branch wt-framegen)
+    # ================================================================================================
+
+  The frames above are stated per call, each in its own shape, most of them for `ctx?` of a node whose PARENT is
+  not touched.  `C05_frame_general` is ONE statement over the extended calls `Forest.XCall`, in the `get?`-of-the-node
+  form: `Forest.XCall.writtenParents f c` (Model/FframeSpec.lean) lists the handles whose child list or own value
+  the call may change — old and new parent of a moved node with the text children that consolidation may merge, the
+  moved node itself when it is a text node, the node for setters, the element and its entry nodes for map updates,
+  the whole subtree for create_missing_prefixes / deduplicate_namespaces / remove_insignificant_whitespace, nothing
+  for node creation and the clones.  Every OTHER live node that is not inside a removed subtree
+  (`removedHandles`) and not inside the moved subtree (`movedSubtree`) is live afterwards with the same value and
+  the same children (same handles, same order: `Forest.kidHandles`), and keeps its parent when the parent is such a
+  node too.
+
+  Domain (`XCall.framed`): append, prepend, insert_after, insert_before, detach, remove, the four value setters,
+  node creation, set_text_consolidation.  NOT in the domain (their frames exist in the `ctx?` form only,
+  `C05_pair_frame_replace / _wrap / _unwrap`, `C05_map_frame`, `C05_clone_node`): any_append, append of an entry
+  node, replace, element_wrap, element_unwrap, clone_node, clone_with_prefixes, the map updates,
+  text_content_mut().set(), remove_insignificant_whitespace, create_missing_prefixes, deduplicate_namespaces.
+  Not stated: the nodes strictly inside the moved subtree (they keep value and children too); a parentless node
+  staying parentless. -/
+
+namespace XotModel.Props
+open XotModel Spec
+
+/-- ⟦C05_frame_general⟧ **No other node is created, lost, reordered or altered** — one statement for the calls of
+    the domain `XCall.framed`.  Every forest with the invariant, every call with live arguments that answers `ok`,
+    every live node `h` outside `writtenParents`, outside the removed subtree and outside the moved subtree: `h` is
+    live afterwards, has the same value and the same children (the same handles in the same order); and if its
+    parent `p` is such a node too, `p` is still its parent. -/
+theorem C05_frame_general {s : Store} {c : Forest.XCall} (inv : s.forest.Inv) (hw : c.wellKinded)
+    (hf : c.framed = true) (hla : c.liveArgs s.forest) (hok : (c.run s).2 = .ok)
+    {h : Nat} (hl : s.forest.isLive h = true)
+    (hnw : h ∉ c.writtenParents s.forest) (hnr : h ∉ c.removedHandles s.forest)
+    (hnm : h ∉ c.movedSubtree s.forest) :
+    (c.run s).1.forest.isLive h = true ∧
+    (c.run s).1.forest.value? h = s.forest.value? h ∧
+    (c.run s).1.forest.kidHandles h = s.forest.kidHandles h ∧
+    (∀ p, s.forest.parent? h = some p → p ∉ c.writtenParents s.forest → p ∉ c.removedHandles s.forest →
+      p ∉ c.movedSubtree s.forest → (c.run s).1.forest.parent? h = some p) := by
+  have fr := frame_general inv hf hla hok hl hnw hnr hnm
+  refine ⟨fr.live, fr.value, fr.kids, fun p hp h1 h2 h3 => ?_⟩
+  have inv' : (c.run s).1.forest.Inv := Store.xstep_inv inv c hw
+  have hk := kid_of_parent? inv.nodup hp
+  have hpl : s.forest.isLive p = true := by
+    unfold Forest.kidHandles at hk
+    unfold Forest.isLive
+    cases hg : s.forest.get? p with
+    | none => rw [hg] at hk; cases hk
+    | some t => rfl
+  exact parent_of_frameAt inv.nodup inv'.nodup hp (frame_general inv hf hla hok hpl h1 h2 h3)
+
+/-- The setters, node creation and `set_text_consolidation`, whatever they answer: every live node other than the
+    one written keeps value, children AND parent (no condition on the parent). -/
+theorem C05_frame_general_simple {s : Store} {c : Forest.XCall} (inv : s.forest.Inv) (hs : simpleCall c = true)
+    {h : Nat} (hl : s.forest.isLive h = true) (hnw : h ∉ c.writtenParents s.forest) :
+    c.framed = true ∧
+    (c.run s).1.forest.isLive h = true ∧
+    (c.run s).1.forest.value? h = s.forest.value? h ∧
+    (c.run s).1.forest.kidHandles h = s.forest.kidHandles h ∧
+    (c.run s).1.forest.parent? h = s.forest.parent? h := by
+  obtain ⟨fr, hp⟩ := frame_general_framed inv hs hl hnw
+  exact ⟨framed_of_simpleCall hs, fr.live, fr.value, fr.kids, hp⟩
+
+/-- Non-vacuity on `frameWitness` (adjacent text nodes; `<e>w x <u>i j<k/>m</u> y z <v/></e>`, the parentless text
+    `r` = 11, a second tree): `append(v, r)` — a text node appended to the element `v` = 10.  Written: `v` and `r`.
+    The SIBLING element `u` = 3 and the common parent `e` = 0 are framed: same value, same children, `u` keeps the
+    parent `e`; `detach(u)` merges `x` and `y`: written are `e` and its text children, `k` = 6 inside `u` is in the
+    moved subtree, the element `h` = 13 of the other tree is framed. -/
+example :
+    let s : Store := ⟨frameWitness, Env.fresh⟩
+    let c : Forest.XCall := .call (.append 10 11)
+    s.forest.inv = true ∧ c.framed = true ∧ (c.run s).2 = .ok ∧
+    c.writtenParents s.forest = [10, 11] ∧ c.removedHandles s.forest = [] ∧ c.movedSubtree s.forest = [11] ∧
+    s.forest.kidHandles 3 = [4, 5, 6, 7] ∧ (c.run s).1.forest.kidHandles 3 = [4, 5, 6, 7] ∧
+    s.forest.kidHandles 0 = [1, 2, 3, 8, 9, 10] ∧ (c.run s).1.forest.kidHandles 0 = [1, 2, 3, 8, 9, 10] ∧
+    (c.run s).1.forest.parent? 3 = some 0 ∧ (c.run s).1.forest.kidHandles 10 = [11] ∧
+    (Forest.XCall.call (.detach 3)).writtenParents s.forest = [0, 1, 2, 8, 9] ∧
+    (Forest.XCall.call (.detach 3)).movedSubtree s.forest = [3, 4, 5, 6, 7] ∧
+    ((Forest.XCall.call (.detach 3)).run s).1.forest.kidHandles 12 = [13, 14] ∧
+    ((Forest.XCall.call (.detach 3)).run s).1.forest.kidHandles 0 = [1, 2, 9, 10] := by
   decide +kernel
 
 end XotModel.Props
